@@ -1012,6 +1012,73 @@ def triple(spec, h0=0, h1=1):
                       {"name": "02_healthy.py", "role": "healthy", "src": {"healthy": h1}}]}
 
 
+def mixed_target_sets(res, scratch):
+    """Directory targets (walked) next to explicitly named files: every explicitly named file and every walked .py file is accounted for exactly once (scanned,
+    or skipped with a reason, or — for walked files outside the include globs — excluded), also when a sibling's name merely STARTS WITH a walked directory's
+    name, when a named file does not exist, and when one of the files cannot be parsed (seeded change C04-m10 dropped an explicit file whose path had a walked
+    directory's path as a string prefix: app_tools/deploy.py after `app`)."""
+    from bandit.core import config as b_config, manager as b_manager
+    root = os.path.join(scratch.root, "mixed")
+    tree = {"app/a.py": b"import pickle\n", "app/broken.py": b"def (:\n", "app/notes.txt": b"x", "app_tools/deploy.py": b"import subprocess\nsubprocess.Popen(c, shell=True)\n",
+            "app_tools/x.py": b"assert y\n", "apps.py": b"exec(c)\n", "app.py": b"import telnetlib\n", "lib/app/z.py": b"eval(e)\n", "ap/p.py": b"import marshal\n"}
+    for rel, data in tree.items():
+        os.makedirs(os.path.dirname(os.path.join(root, rel)), exist_ok=True)
+        with open(os.path.join(root, rel), "wb") as fh:
+            fh.write(data)
+    target_sets = [["app", "app_tools/deploy.py", "app_old/gone.py"], ["app", "apps.py", "app.py"], ["app_tools/deploy.py", "app"], ["ap", "app/a.py", "app_tools"],
+                   ["lib", "app/a.py", "app_tools/x.py"], ["app", "app_tools", "ap", "apps.py"], ["app/", "app_tools/deploy.py"], ["./app", "./app_tools/deploy.py", "./apps.py"]]
+    old = os.getcwd()
+    os.chdir(root)
+    try:
+        for targets in target_sets:
+            linecache.clearcache()
+            C.take_log()
+            mgr = b_manager.BanditManager(b_config.BanditConfig(), "file")
+            try:
+                mgr.discover_files(list(targets), True)
+                mgr.run_tests()
+            except BaseException as e:  # noqa
+                res.violation("the scan of a mixed target set did not complete", {"targets": targets, "tree": sorted(tree), "exception": "%s: %s" % (type(e).__name__, e)})
+                continue
+            C.take_log()
+            res.case(("mixed-targets", tuple(targets)), True)
+            res.count("mixed-target-sets")
+            norm = lambda p: os.path.normpath(p)
+            scanned = [norm(f) for f in mgr.files_list]
+            skipped = [norm(n) for n, _ in mgr.skipped]
+            excluded = [norm(f) for f in mgr.excluded_files]
+            expected = set()
+            for t in targets:
+                if os.path.isdir(t):
+                    for dp, _, fns in os.walk(t):
+                        for fn in fns:
+                            expected.add(norm(os.path.join(dp, fn)))
+                else:
+                    expected.add(norm(t))
+            problems = {}
+            for f in sorted(expected):
+                n = (f in set(scanned)) + (f in set(skipped)) + (f in set(excluded))
+                if n != 1:
+                    problems[f] = {"scanned": f in scanned, "skipped": f in skipped, "excluded": f in excluded}
+            for f in set(scanned) | set(skipped):
+                if f not in expected:
+                    problems[f] = "accounted for but not a target"
+            by = {}
+            for r in mgr.results:
+                by.setdefault(norm(r.fname), []).append((r.test_id, r.lineno))
+            for f in set(scanned):
+                a = alone(scratch, tree.get(f.replace(os.sep, "/"), b""), False, False)
+                want = sorted((t[0], t[3]) for t in a["findings"])
+                if sorted(by.get(f, [])) != want:
+                    problems[f + " (findings)"] = {"in_this_run": sorted(by.get(f, [])), "alone": want}
+            if problems:
+                res.violation("a target set of directories and explicitly named files is not accounted for file by file (each once: scanned, skipped with a reason, or excluded)",
+                              {"targets": targets, "cwd_tree": sorted(tree), "files_list": mgr.files_list, "skipped": [[n, r] for n, r in mgr.skipped],
+                               "excluded": mgr.excluded_files, "problems": problems})
+    finally:
+        os.chdir(old)
+
+
 # ----------------------------------------------------------------------------- entry point
 def run(res, ctx):
     import warnings
@@ -1055,6 +1122,8 @@ def _run(res, ctx):
             res.case(label, True, sample={"label": label})
             return
 
+        # ---- (0) directory targets next to explicitly named files
+        mixed_target_sets(res, scratch)
         # ---- (1) fault enumeration
         for label, scn in enumeration(thorough):
             ok, obs = run_in_process(res, drv, scratch, scn, label)
